@@ -293,7 +293,8 @@ func (b *Builder) Int64(v int64) *Builder {
 func (b *Builder) Ident(s string) *Builder {
 	if s != "" {
 		b.WriteByte(b.QuoteOpening)
-		b.WriteString(s)
+		// Escape the closing quote character by doubling it.
+		b.WriteString(strings.ReplaceAll(s, string(b.QuoteClosing), string([]byte{b.QuoteClosing, b.QuoteClosing})))
 		b.WriteByte(b.QuoteClosing)
 		b.WriteByte(' ')
 	}
